@@ -283,3 +283,48 @@ def oracle_element_mirror(R, tier, seed):
         if err > 1e-10: _fail(O, "C07:LocalStiffTransformed:element-matrix-not-mirror-covariant", {"model": model, "kind": kind, "ny": ny, "seed": seed, "it": it}, rel_err=err, mesh=m.tolist())
         else: O["ok"] += 1
         R.mark("c07elem", it)
+
+
+def oracle_inertial_loads_mirror(R, tier, seed):
+    """the distributed inertial / fuel / point-mass / thrust loads of a full-span beam and of its mirror image (node order
+    reversed): every nodal force and moment is the mirror image; on a mirror-symmetric beam the loads are mirror-symmetric"""
+    from openaerostruct.structures.fuel_loads import FuelLoads
+    from openaerostruct.structures.wing_weight_loads import StructureWeightLoads
+    from openaerostruct.structures.compute_point_mass_loads import ComputePointMassLoads
+    from openaerostruct.structures.compute_thrust_loads import ComputeThrustLoads
+    O = R.oracle("inertial-load-components.full-span-mirror")
+    rng = gen.stable_rng(seed, "c07loads")
+    sgn = np.array([1.0, -1.0, 1.0, -1.0, 1.0, -1.0])
+    for it in range(3 if tier == "quick" else 9):
+        nyh = int(rng.choice([2, 3, 4]))
+        symmetric_case = it % 2 == 0
+        m = mirror_full(gen.rand_mesh(rng, 2, nyh, "left", offset=False)) if symmetric_case else gen.rand_mesh(rng, 2, 2 * nyh - 1, "full", offset=False)
+        ny = m.shape[1]; mm = mirror_mesh(m)
+        nodes = 0.6 * m[0] + 0.4 * m[-1]; nodes_m = 0.6 * mm[0] + 0.4 * mm[-1]
+        half = rng.uniform(0.2, 2.0, nyh - 1)
+        vols = np.concatenate([half, half[::-1]]) if symmetric_case else rng.uniform(0.2, 2.0, ny - 1)
+        em = np.concatenate([half, half[::-1]]) * 100 if symmetric_case else rng.uniform(20, 400, ny - 1)
+        lf = float(rng.choice([1.0, 2.5])); fuel = float(rng.uniform(2e4, 8e4))
+        sa = gen.wingbox_surface(m, symmetry=False); sb = gen.wingbox_surface(mm, symmetry=False)
+        pl = np.array([[nodes[1, 0] + 0.5, 0.5 * (nodes[0, 1] + nodes[1, 1]), -0.6]]); plm = pl * np.array([1.0, -1.0, 1.0])
+        cases = [
+            ("FuelLoads", FuelLoads, "fuel_weight_loads", lambda nd, rev: {"fuel_vols": vols[::-1] if rev else vols, "nodes": nd, "fuel_mass": fuel, "load_factor": lf}, {}),
+            ("StructureWeightLoads", StructureWeightLoads, "struct_weight_loads", lambda nd, rev: {"element_mass": em[::-1] if rev else em, "nodes": nd, "load_factor": lf}, {}),
+            ("ComputePointMassLoads", ComputePointMassLoads, "loads_from_point_masses", lambda nd, rev: {"point_mass_locations": plm if rev else pl, "point_masses": np.array([[500.0]]), "nodes": nd, "load_factor": lf}, {"n_point_masses": 1}),
+            ("ComputeThrustLoads", ComputeThrustLoads, "loads_from_thrusts", lambda nd, rev: {"point_mass_locations": plm if rev else pl, "engine_thrusts": np.array([3e4]), "nodes": nd}, {"n_point_masses": 1}),
+        ]
+        for cname, cls, out, ins, extra in cases:
+            if symmetric_case and extra:
+                continue        # one engine on one side is not a mirror-symmetric configuration
+            oa, _, _ = core.run_comp(cls(surface=dict(sa, **extra)), ins(nodes, False), want_J=False)
+            ob, _, _ = core.run_comp(cls(surface=dict(sb, **extra)), ins(nodes_m, True), want_J=False)
+            la, lb = oa[out], ob[out]
+            sc = max(np.abs(la).max(), 1e-300)
+            err = float(np.abs(lb - la[::-1] * sgn).max() / sc)
+            if symmetric_case:
+                err = max(err, float(np.abs(la - la[::-1] * sgn).max() / sc))
+            O["cases"] += 1
+            if err > 1e-10:
+                _fail(O, "C07:%s:loads-not-mirror-covariant" % cname, {"component": cname, "mirror_symmetric_beam": symmetric_case, "ny": ny, "seed": seed, "it": it}, rel_err=err, nodes=nodes.tolist(), loads=la.tolist())
+            else: O["ok"] += 1
+        R.mark("c07loads", it)
